@@ -225,6 +225,10 @@ func (p *cparser) postfix(e CExpr) CExpr {
 }
 
 func (p *cparser) sort() string {
+	if p.isOp("*") { // pointer to a struct type of the package: a typed reference
+		p.pos++
+		return "*" + p.sort()
+	}
 	t := p.next()
 	if t.kind != "id" {
 		p.fail("expected sort name, found %q", t.s)
